@@ -48,7 +48,7 @@ CLAIMED = {
             "index-group symbols (groups identified by their filling conditions) checked against the matmul contract; "
             "direction analysis of every transposition tuple; stage/position agreement of the single-operand planner "
             "and executor by construction/usage kinds; exception-type and normalisation discipline of tensordot's axes"
-            "; stage extraction of the executor (guard, polarity, order) matched against the plan by construction/usage roles; structural clauses of the pure-multiplication plan and of the tensordot equation; permutation guard of transposition-only plans; module-wide scan of transposition tuples in both spellings; def-use provenance of every returned plan from the equation's output; sample execution of the diagonal layout bookkeeping by a string evaluator; multiplicity discipline of the classification loops; blacklist of conjugating / flattening primitives"),
+            "; stage extraction of the executor (guard, polarity, order) matched against the plan by construction/usage roles; structural clauses of the pure-multiplication plan and of the tensordot equation; permutation guard of transposition-only plans; module-wide scan of transposition tuples in both spellings; def-use provenance of every returned plan from the equation's output; sample execution of the diagonal layout bookkeeping by a string evaluator; multiplicity discipline of the classification loops; blacklist of conjugating / flattening primitives; evaluation of the planners' pure source by a restricted AST evaluator over an exhaustive bounded family of equations and sizes, with the returned plan checked in an abstract domain of fused-axis layouts (edge of the family, see DESIGN E9)"),
     "C12": ("4 C12", "structural and partially-evaluated checks of the front end's rewrites: statement-order and guard of "
             "the fresh-symbol choice, partial evaluation of the ellipsis slice and of the interleaved index expressions, "
             "sibling agreement of the implicit-output implementations, guard/direction of the single-operand fast paths, "
